@@ -242,4 +242,4 @@ def strat(nports):
 def subchecks(tier):
     big = tier == "thorough"
     return [Sub(f"histories/ports={n}", lambda rep, case, n=n: body(rep, case, f"histories/ports={n}"), strategy=strat(n),
-                n=10_000 if big else 1200, shards=4 if big else 2, shrink_budget=100) for n in (1, 2, 3, 4)]
+                n=40_000 if big else 1200, shards=4 if big else 2, shrink_budget=100) for n in (1, 2, 3, 4)]
